@@ -63,6 +63,9 @@ PROPS = {
                 assumptions=[DALEK, MERLIN, "completeness theorems carry the hypothesis that the masking commitments are not the identity (fails with probability ~2^-252 over honest nonces)",
                              "rand::OsRng is external: the model takes nonces as explicit arguments"]),
     "C20": dict(module="ZkElGamal.Props.C20", ns="Zk.Props.C20", trusted=[DALEK, MERLIN], assumptions=[DALEK, MERLIN]),
+    "C06": dict(module="ZkElGamal.Props.C06", ns="Zk.Props.C06", trusted=[DALEK, MERLIN],
+                assumptions=[DALEK, MERLIN, "the quantifier 'across every future revision' is met by pinning: kat/v1.ops and Model/LabelsV1.lean are committed and never regenerated by a check",
+                             "the executable Lean model is the independent implementation; its own prover/verifier consistency is theorem C05.*.complete for four protocols and tested for the rest"]),
     "C08": dict(module="ZkElGamal.Props.C08", ns="Zk.Props.C08", trusted=[DALEK],
                 assumptions=["panic-freedom of curve25519-dalek, base64, serde_json, bytemuck, merlin themselves is observed through catch_unwind only, not proved",
                              "harness built with the dev profile: overflow checks and debug assertions on",
@@ -125,6 +128,11 @@ MANIFEST_TEXT = {
         text="Theorems X_new_none_iff for the nine sigma constructors (zero: decrypts to identity; ct-ct / ct-cmt: decryption and re-encryption/commitment; grouped: exact re-encryption for any number of handles, lo and hi separately; cap: percentage and claimed always, delta only below the cap). "
              "Correspondence: every single statement point, key, amount and opening perturbed in turn: both sides must refuse; honest ones accepted. Range constructors: range_new_none_iff (sum != width, length mismatch, > 8 commitments, identity commitment, bit length 0 or > 64) and the same families in the correspondence.",
         note=SIGMA_NOTE),
+    "C06": dict(
+        technique="Lean 4 proof (pinned v1 label set / domain / layouts equal the tables regenerated from source; model-proved => model-verified) + cross-verification with the bit-exact model in both directions + pinned known-answer vectors",
+        text="The executable model (Keccak/STROBE/Merlin, Ristretto255, SHA3/SHAKE generators written in Lean) is an independent implementation of the version-1 protocol. Every run: all twelve instructions Rust-proved -> model-verified and model-proved -> Rust-verified on honest statements, "
+             "G and H byte-compared, kat/v1.ops (pinned Rust-produced proofs of all twelve instructions plus pinned rejections) verified by both sides; theorems: label set, domain separator, instruction labels distinct, proof-data layouts = v1.",
+        note="Trusted: Lean kernel for the table theorems; the interoperability claim itself is differential (model vs code) and pinned-vector based. A harmless relabelling of internal (non-wire) strings would break labels_v1 without violating the property: reported as no-failing-input-found."),
     "C08": dict(
         technique="Lean 4 proof (no_panic theorems over decoder models with Rust's partial operations explicit) + differential correspondence under catch_unwind with overflow checks on",
         text="Theorems: point/scalar/key-pair/ciphertext/grouped-ciphertext (any handle count)/AE decoders and Pod extraction by index never reach a panic outcome for any byte string / index (slice bounds, checked arithmetic, unwraps, asserts are explicit in the model); "
